@@ -206,6 +206,93 @@ def run(prop: str, tier: str, seed: int) -> int:
         n_runs += 1
     rep.family("qap objective", n_runs - n0, n_runs - n0)
 
+    # ---- controllers and system equations: exact-size state / parameter / output vectors
+    n0 = n_runs
+    from moptipyapps.dynamic_control.controllers.ann import anns
+    from moptipyapps.dynamic_control.controllers.cubic import cubic
+    from moptipyapps.dynamic_control.controllers.linear import linear
+    from moptipyapps.dynamic_control.controllers.min_ann import min_anns
+    from moptipyapps.dynamic_control.controllers.partially_linear import partially_linear
+    from moptipyapps.dynamic_control.controllers.peaks import peaks
+    from moptipyapps.dynamic_control.controllers.predefined import predefined
+    from moptipyapps.dynamic_control.controllers.quadratic import quadratic
+    from moptipyapps.dynamic_control.systems.lorenz import LORENZ_4
+    from moptipyapps.dynamic_control.systems.stuart_landau import STUART_LANDAU_4
+    from moptipyapps.dynamic_control.systems.three_coupled_oscillators import THREE_COUPLED_OSCILLATORS
+    n_ev = {"quick": 40, "thorough": 300}[tier]
+    for sysm in (STUART_LANDAU_4, LORENZ_4, THREE_COUPLED_OSCILLATORS):
+        ctls = []
+        for mk in (linear, quadratic, cubic, partially_linear, peaks, predefined, min_anns, anns):
+            try:
+                got = mk(sysm)
+            except ValueError:
+                continue          # this family does not exist for the state dimension
+            ctls.extend(got if isinstance(got, (tuple, list)) else (list(got) if not hasattr(got, "controller") else [got]))
+        d = sysm.state_dims
+        for ctl in ctls:
+            for e in range(n_ev):
+                scale = rng.choice([0.0, 1.0, 1.0, 4.0])
+                params = [rng.uniform(-scale, scale) if scale else 0.0 for _ in range(ctl.param_dims)]
+                if e % 3 == 0 and ctl.param_dims >= 2 * d:
+                    # the state sits on a d-tuple of consecutive parameters (an "anchor" of the partially linear
+                    # controllers: makes each later branch the closest one in turn)
+                    o = rng.randrange(0, ctl.param_dims - d + 1)
+                    state = list(params[o:o + d])
+                else:
+                    state = [rng.uniform(-3, 3) for _ in range(d)]
+                sa, pa, out = np.array(state), np.array(params), np.empty(ctl.control_dims)
+                guarded(rep, f"controller:{ctl.name}({d}d)", f"ctrl-{sysm.name}-{ctl.name}-{e}",
+                        {"system": sysm.name, "controller": ctl.name, "state": state, "params": params},
+                        lambda: ctl.controller(sa, rng.uniform(0, 5), pa, out))
+                n_runs += 1
+        for e in range(n_ev):
+            sa = np.array([rng.uniform(-3, 3) for _ in range(d)])
+            ca, out = np.array([rng.uniform(-2, 2) for _ in range(sysm.control_dims)]), np.empty(d)
+            guarded(rep, f"equations:{sysm.name}", f"eq-{sysm.name}-{e}", {"system": sysm.name, "state": sa.tolist(),
+                                                                            "control": ca.tolist()},
+                    lambda: sysm.equations(sa, 0.5, ca, out))
+            n_runs += 1
+    rep.family("controllers + system equations (exact-size vectors)", n_runs - n0, n_runs - n0)
+
+    # ---- simulation post-processing kernels (figure of merit, time and differential extraction)
+    n0 = n_runs
+    from moptipyapps.dynamic_control import ode as odem
+    for k in range({"quick": 60, "thorough": 500}[tier]):
+        sd, cd = rng.randint(1, 4), rng.randint(1, 3)
+        rows = rng.choice([1, 1, 2, 3, rng.randint(4, 30)])
+        t = sorted(rng.uniform(0, 10) for _ in range(rows))
+        t[0] = 0.0
+        arr = np.array([[rng.uniform(-2, 2) for _ in range(sd + cd)] + [t[r]] for r in range(rows)])
+        case = {"ode": arr.tolist(), "state_dim": sd, "control_dim": cd}
+        guarded(rep, "ode.j_from_ode", f"ode-j-{k}", case, lambda: odem.j_from_ode(arr, sd, rng.choice([-1, sd, max(1, sd - 1)]), 0.1))
+        guarded(rep, "ode.t_from_ode", f"ode-t-{k}", case, lambda: odem.t_from_ode(arr))
+        guarded(rep, "ode.diff_from_ode", f"ode-d-{k}", case, lambda: odem.diff_from_ode(arr, sd))
+        n_runs += 3
+    for k in range({"quick": 12, "thorough": 80}[tier]):
+        sysm = rng.choice([STUART_LANDAU_4, LORENZ_4])
+        ctl = rng.choice([linear, quadratic])(sysm)
+        pa = np.array([rng.uniform(-1, 1) for _ in range(ctl.param_dims)])
+        st = np.array(sysm.training_starting_states[rng.randrange(len(sysm.training_starting_states))], dtype=float)
+        steps = rng.choice([1, 2, 5, 30])
+        guarded(rep, "ode.run_ode", f"ode-run-{k}", {"system": sysm.name, "controller": ctl.name, "params": pa.tolist(),
+                                                    "start": st.tolist(), "steps": steps},
+                lambda: odem.run_ode(st, sysm.equations, ctl.controller, pa, 1, steps, rng.choice([0.5, 3.0])))
+        n_runs += 1
+    rep.family("ode kernels (run, figure of merit, time, differentials)", n_runs - n0, n_runs - n0)
+
+    # ---- order1d swap distance
+    n0 = n_runs
+    from moptipyapps.order1d.distances import swap_distance
+    for k in range({"quick": 200, "thorough": 2000}[tier]):
+        n = rng.choice([1, 1, 2, 3, rng.randint(4, 40)])
+        a, b = list(range(n)), list(range(n))
+        rng.shuffle(a)
+        rng.shuffle(b)
+        guarded(rep, "order1d.swap_distance", f"swap-{k}", {"p1": a, "p2": b},
+                lambda: swap_distance(np.array(a), np.array(b)))
+        n_runs += 1
+    rep.family("order1d swap distance", n_runs - n0, n_runs - n0)
+
     rep.traces += n_runs
     rep.evaluations = n_runs
     rep.nontrivial = n_runs
@@ -213,7 +300,10 @@ def run(prop: str, tier: str, seed: int) -> int:
     rep.rule = ("kernel executions under numba bounds checking: decoders (degenerate, one item, storage edge, dense), "
                 "7 objectives incl. every-item-in-its-own-bin packings, TTP error counter / plan length on arbitrary, "
                 "self-play (last team), all-self and extreme-value plans, game decoding with tight day budgets, TSP tour "
-                "length and both move kernels for every i<j up to the last index, QAP objective. Each execution is a "
+                "length and both move kernels for every i<j up to the last index, QAP objective, every bundled controller family "
+                "(polynomial, partially linear with the state on each anchor, peaks, predefined, ANNs) and the system "
+                "equations on exact-size vectors, the simulation kernels (run_ode, j/t/diff_from_ode incl. one-row "
+                "results and several control dimensions), the ordering swap distance. Each execution is a "
                 "distinct randomly drawn input; non-trivial = all.")
     rep.assumptions = ["NUMBA_BOUNDSCHECK=1 overrides boundscheck=False (probed at start)",
                        "negative indices wrap silently even with bounds checking; only caught through values"]
@@ -240,6 +330,46 @@ def replay(prop: str, case: dict) -> dict:
                 m["rev_ea"](case["i"], case["j"], n, inst, xa.copy(), y)
                 h = _np.zeros(int(inst.tour_length_upper_bound) + 1, dtype=_np.int64)
                 m["rev_fea"](case["i"], case["j"], n, inst, h, xa.copy(), y)
+        elif "system" in case:
+            from moptipyapps.dynamic_control import ode as odem
+            from moptipyapps.dynamic_control.controllers.ann import anns
+            from moptipyapps.dynamic_control.controllers.cubic import cubic
+            from moptipyapps.dynamic_control.controllers.linear import linear
+            from moptipyapps.dynamic_control.controllers.min_ann import min_anns
+            from moptipyapps.dynamic_control.controllers.partially_linear import partially_linear
+            from moptipyapps.dynamic_control.controllers.peaks import peaks
+            from moptipyapps.dynamic_control.controllers.predefined import predefined
+            from moptipyapps.dynamic_control.controllers.quadratic import quadratic
+            from moptipyapps.dynamic_control.systems.lorenz import LORENZ_4
+            from moptipyapps.dynamic_control.systems.stuart_landau import STUART_LANDAU_4
+            from moptipyapps.dynamic_control.systems.three_coupled_oscillators import THREE_COUPLED_OSCILLATORS
+            sysm = {q.name: q for q in (STUART_LANDAU_4, LORENZ_4, THREE_COUPLED_OSCILLATORS)}[case["system"]]
+            ctl = None
+            for mk in (linear, quadratic, cubic, partially_linear, peaks, predefined, min_anns, anns):
+                try:
+                    got = mk(sysm)
+                except ValueError:
+                    continue
+                for c in (got if isinstance(got, (tuple, list)) else (list(got) if not hasattr(got, "controller") else [got])):
+                    if c.name == case.get("controller"):
+                        ctl = c
+            if "start" in case:
+                odem.run_ode(_np.array(case["start"]), sysm.equations, ctl.controller, _np.array(case["params"]), 1,
+                             case["steps"], 3.0)
+            elif ctl is not None:
+                ctl.controller(_np.array(case["state"]), 0.5, _np.array(case["params"]), _np.empty(ctl.control_dims))
+            else:
+                sysm.equations(_np.array(case["state"]), 0.5, _np.array(case["control"]), _np.empty(sysm.state_dims))
+        elif "ode" in case:
+            from moptipyapps.dynamic_control import ode as odem
+            arr = _np.array(case["ode"])
+            for u in (-1, case["state_dim"], max(1, case["state_dim"] - 1)):
+                odem.j_from_ode(arr, case["state_dim"], u, 0.1)
+            odem.t_from_ode(arr)
+            odem.diff_from_ode(arr, case["state_dim"])
+        elif "p1" in case:
+            from moptipyapps.order1d.distances import swap_distance
+            swap_distance(_np.array(case["p1"]), _np.array(case["p2"]))
         elif "W" in case:
             inst = bp.make_instance(case["W"], case["H"], case["items"])
             if "x" in case:
